@@ -8,7 +8,9 @@ tr = subprocess.run([str(V / "tools/try_seeded.sh"), patch, *props], capture_out
 lines = [l[:260] for l in tr.splitlines() if l.startswith(("VIOLATION", "check "))]
 out = V / "seeded" / f"harmless-{name}"
 out.mkdir(parents=True, exist_ok=True)
-shutil.copy(patch, out / "patch.diff")
+import os
+if os.path.abspath(patch) != str(out / "patch.diff"):
+    shutil.copy(patch, out / "patch.diff")
 alarms = [l for l in lines if l.startswith("VIOLATION")]
 meta = {"id": f"harmless-{name}", "property": ", ".join(props) + " (negative control)",
         "change": "behaviour-preserving refactor written by a fresh sub-agent (renames / reordering / control-flow restructuring; suite still 332 passed)",
